@@ -188,6 +188,111 @@ def run(report, index, tier):
                             'instance, but %s mutates it through self: all '
                             'instances (all parses, all threads) share it'
                             % (attr, cname, s.func), where=s.where)
+    # instance attributes initialised from shared (module- or class-level)
+    # mutable objects, directly or through a shallow copy
+    MUT = (ast.List, ast.Dict, ast.Set, ast.ListComp, ast.DictComp,
+           ast.SetComp)
+    SHALLOW = ('list', 'dict', 'set', 'tuple', 'copy', 'sorted',
+               'deque', 'OrderedDict')
+    nshared = 0
+    for m in mods:
+        shared = {}     # name -> (value node, has nested mutable, is mutable)
+        scopes = [(None, m.tree.body)] + [
+            (c, n.body) for c, n in m.classes.items()]
+        for owner, body in scopes:
+            for st in body:
+                if not isinstance(st, ast.Assign):
+                    continue
+                v = st.value
+                nested = any(isinstance(x, MUT) for x in ast.walk(v)
+                             if x is not v)
+                top = isinstance(v, MUT) or (
+                    isinstance(v, ast.Call) and ast.unparse(v.func) in (
+                        'list', 'dict', 'set', 'defaultdict', 'deque'))
+                if not (nested or top):
+                    continue
+                for t in st.targets:
+                    if isinstance(t, ast.Name):
+                        shared[(owner, t.id)] = (v, nested, top)
+        if not shared:
+            continue
+        sites = list(write_sites(m))
+        for clsname, fdef, chain in iter_functions(m):
+            if clsname is None:
+                continue
+            for n in own_nodes(fdef):
+                if not (isinstance(n, ast.Assign) and len(n.targets) == 1
+                        and isinstance(n.targets[0], ast.Attribute) and
+                        isinstance(n.targets[0].value, ast.Name) and
+                        n.targets[0].value.id == 'self'):
+                    continue
+                attr = n.targets[0].attr
+                v = n.value
+                how = None
+                src = v
+                if isinstance(v, ast.Call) and len(v.args) == 1 and \
+                        not v.keywords and ast.unparse(v.func).split(
+                            '.')[-1] in SHALLOW:
+                    how, src = 'a shallow copy', v.args[0]
+                elif isinstance(v, ast.Call) and isinstance(
+                        v.func, ast.Attribute) and v.func.attr == 'copy' \
+                        and not v.args:
+                    how, src = 'a shallow copy', v.func.value
+                elif isinstance(v, ast.Subscript) and isinstance(
+                        v.slice, ast.Slice) and v.slice.lower is None and \
+                        v.slice.upper is None:
+                    how, src = 'a shallow copy', v.value
+                elif isinstance(v, ast.List) and len(v.elts) == 1 and \
+                        isinstance(v.elts[0], ast.Starred):
+                    how, src = 'a shallow copy', v.elts[0].value
+                else:
+                    how = 'an alias'
+                key = None
+                if isinstance(src, ast.Name):
+                    key = (None, src.id)
+                elif isinstance(src, ast.Attribute) and isinstance(
+                        src.value, ast.Name) and src.value.id in (
+                            'self', 'cls', clsname):
+                    key = (clsname, src.attr)
+                if key is None or key not in shared:
+                    continue
+                val, nested, top = shared[key]
+                nshared += 1
+                if how == 'a shallow copy' and not nested:
+                    r2.ok('self.%s = %s' % (attr, ast.unparse(v)),
+                          'copy of a flat container')
+                    continue
+                if how == 'an alias' and not top and not nested:
+                    continue
+                prefix = 'self.%s' % attr
+                hits = []
+                for s in sites:
+                    if s.cls != clsname or s.base is None:
+                        continue
+                    bt = ast.unparse(s.base)
+                    deep = bt.startswith(prefix + '[') or \
+                        bt.startswith(prefix + '.')
+                    if how == 'an alias' and (bt == prefix or deep):
+                        hits.append(s)
+                    elif how == 'a shallow copy' and deep:
+                        hits.append(s)
+                r2.check(
+                    not hits, '%s.%s initialised from shared %s' % (
+                        clsname, attr, key[1]),
+                    'self.%s = %s in %s.%s' % (attr, ast.unparse(v), clsname,
+                                              fdef.name),
+                    'self.%s is %s of `%s`, a mutable object created once '
+                    'at import time%s; %s mutates it through self (%s): '
+                    'all instances, hence all parses and threads, share '
+                    'that state' % (
+                        attr, how, key[1],
+                        ' whose elements are themselves mutable'
+                        if how == 'a shallow copy' else '',
+                        ', '.join(sorted({h.func for h in hits})),
+                        hits[0].text if hits else ''),
+                    where='%s:%s.%s' % (m.name, clsname, fdef.name))
+    report.count('instance attributes initialised from shared objects',
+                 nshared)
     report.count('write sites on the parse path', nsites)
     # R15.3 ---------------------------------------------------------------
     r3 = report.rule('R15.3', 'instance attributes read by Lexer/Parser '
